@@ -223,6 +223,7 @@ def run(ctx: Context) -> None:
     parallel_projections(ctx, idx, reg)
     renumbering_loops(ctx, idx)
     mode_masks(ctx, idx, res, reg)
+    chained_reductions(ctx, idx)
     ctx.obligation("C16a", "package|fullness-tests-order-sensitive", not any(f.rule == "C16a" for f in ctx.findings))
     ctx.obligation("C16b", "package|mode-order-kept", not any(f.rule == "C16b" for f in ctx.findings))
 
@@ -555,3 +556,93 @@ def parallel_projections(ctx: Context, idx, reg) -> None:
                                   f"insertion order: consumers zip the two, so values are attached to the wrong modes when the entries were "
                                   f"not registered in ascending mode order", norm(x))
     ctx.count("mapping attributes with parallel key/value projections", n)
+
+
+def chained_reductions(ctx: Context, idx) -> None:
+    """C16e: `state.reduced(A)` renumbers the kept modes 0 .. len(A)-1.  A second reduction (or any other mode-addressed call) on the
+    reduced state must therefore be given positions within A, never the original labels again: `state.reduced(modes).reduced(modes[:k])`
+    applies the relabelling twice and is right only for modes = (0, 1, ..., k-1)."""
+    ctx.rule("C16e", "a state reduced to the measured modes is never addressed again with the original mode labels (no double relabelling)")
+    n_red = 0
+    for fn in idx.all_functions():
+        if not any(isinstance(c, ast.Call) and isinstance(c.func, ast.Attribute) and c.func.attr == "reduced" for c in ast.walk(fn.node)):
+            continue
+        # names that hold original mode labels: bound from `<x>.modes`, parameters called modes, and slices / re-wrappings of those
+        labels: Set[str] = {a.arg for a in ast.walk(fn.node) if isinstance(a, ast.arg) and a.arg in ("modes",)}
+        changed = True
+        assigns = [a for a in ast.walk(fn.node) if isinstance(a, ast.Assign) and len(a.targets) == 1 and isinstance(a.targets[0], ast.Name)]
+
+        def has_label(e: ast.AST) -> bool:
+            for x in ast.walk(e):
+                if isinstance(x, ast.Attribute) and x.attr == "modes" and not (isinstance(x.value, ast.Name) and x.value.id == "self" and False):
+                    return True
+                if isinstance(x, ast.Name) and x.id in labels:
+                    return True
+            return False
+
+        def is_rewrap(e: ast.AST) -> bool:
+            """tuple(...)/list(...)/slice/index selection/concatenation of label data - still labels (not positions, not counts)"""
+            if isinstance(e, ast.Name):
+                return e.id in labels
+            if isinstance(e, ast.Attribute):
+                return e.attr == "modes"
+            if isinstance(e, ast.Subscript):
+                return is_rewrap(e.value)
+            if isinstance(e, ast.Call) and (dotted(e.func) or "").split(".")[-1] in ("tuple", "list", "array", "asarray") and e.args:
+                return is_rewrap(e.args[0])
+            if isinstance(e, ast.BinOp) and isinstance(e.op, ast.Add):
+                return is_rewrap(e.left) and is_rewrap(e.right)
+            return False
+
+        while changed:
+            changed = False
+            for a in assigns:
+                if a.targets[0].id not in labels and is_rewrap(a.value):
+                    labels.add(a.targets[0].id)
+                    changed = True
+        reduced_locals: Dict[str, ast.Call] = {}
+        for a in assigns:
+            v = a.value
+            if isinstance(v, ast.Call) and isinstance(v.func, ast.Attribute) and v.func.attr == "reduced" and v.args and is_rewrap(v.args[0]):
+                reduced_locals[a.targets[0].id] = v
+        n_red += sum(1 for c in ast.walk(fn.node) if isinstance(c, ast.Call) and isinstance(c.func, ast.Attribute) and c.func.attr == "reduced")
+        if not reduced_locals:
+            continue
+        nested = {f.name: f for f in ast.walk(fn.node) if isinstance(f, ast.FunctionDef) and f is not fn.node}
+
+        def param_gets_labels(fdef: ast.FunctionDef, pname: str) -> bool:
+            pos = [a.arg for a in fdef.args.args]
+            for c in ast.walk(fn.node):
+                if isinstance(c, ast.Call) and isinstance(c.func, ast.Name) and c.func.id == fdef.name:
+                    for i, a in enumerate(c.args):
+                        if i < len(pos) and pos[i] == pname and is_rewrap(a):
+                            return True
+                    for k in c.keywords:
+                        if k.arg == pname and is_rewrap(k.value):
+                            return True
+            return False
+
+        for c in ast.walk(fn.node):
+            if not (isinstance(c, ast.Call) and isinstance(c.func, ast.Attribute) and isinstance(c.func.value, ast.Name)
+                    and c.func.value.id in reduced_locals and c.args):
+                continue
+            if c.func.attr not in ("reduced", "get_marginal_fock_probabilities", "mean_photon_number", "variance_photon_number",
+                                   "quadratures_mean_variance", "xpxp_reduced_rotated_mean_and_covariance"):
+                continue
+            b = c.args[0]
+            direct = is_rewrap(b)
+            via = None
+            if not direct and isinstance(b, ast.Name):
+                for fdef in nested.values():
+                    if any(x is c for x in ast.walk(fdef)) and b.id in [a.arg for a in fdef.args.args + fdef.args.kwonlyargs] and param_gets_labels(fdef, b.id):
+                        via = fdef.name
+            if direct or via:
+                key = f"{fn.qualname}|{c.func.value.id}.{c.func.attr}({norm(b)})"
+                first = reduced_locals[c.func.value.id]
+                ctx.violation("C16e", key, fn.file, c.lineno,
+                              f"`{c.func.value.id}` is `{norm(first)[:60]}`, whose modes are renumbered 0..k-1 in the order of the tuple; "
+                              f"`{norm(c)[:70]}` addresses it with original mode labels again"
+                              + (f" (the parameter `{norm(b)}` of {via} receives a slice of the mode tuple)" if via else "")
+                              + ": the relabelling is applied twice, which is right only for modes (0, 1, ..., k-1)", norm(c)[:100])
+    ctx.require_floor("C16e calls of reduced() examined", n_red, 10)
+    ctx.obligation("C16e", "package|no-double-relabelling", not any(f.rule == "C16e" for f in ctx.findings), reduced_calls=n_red)
